@@ -458,3 +458,68 @@ Definition all_finished (s : state) : bool := forallb finished (s_acts s).
 Definition clean_td (td : tdesc) : bool := t_live td && negb (t_excl td) && (t_readers td =? 0)%Z.
 Definition clean (ix : tix) : Prop :=
   forallb clean_td ix = true /\ NoDup (map t_tag ix).
+
+(* ------------------------------------------------------------------ the users of the index, call by call *)
+
+(* The USERS of the index as the sequences of tindex calls they make (one caller; used by the
+   operation-level theorems C14_user_* of props/C14.v; the system-level procedures PWrite / PQuery
+   above are the same disciplines inside the transition system).
+   cursor.newCursor: GetJournals acquires every partition the condition selects (nobody is locking:
+   the waiting visit = inc_all over the selection); if the filter cannot be built or the position
+   cannot be applied, releaseJournals releases each of them once and no cursor exists; otherwise the
+   cursor owns them until close() releases each once.
+   partition.Service.Write: GetOrCreateJournal; Journals.GetOrCreate fails -> Release, return;
+   write rounds; whatever ends the loop (all written, the first record refused, the iterator
+   failing after accepted records) -> Release after the loop.
+   u_new_cursor_v6 / u_write_g true are NOT the code: the seeded changes C14-6 (position error path
+   calls cur.close() and then releaseJournals) and C14-7 (the iterator-failure branch returns
+   without Release); they carry the refutations only. *)
+Fixpoint rel_all (ix : tix) (l : list nat) : option tix :=
+  match l with
+  | [] => Some ix
+  | p :: t => match release ix p with Some ix' => rel_all ix' t | None => None end
+  end.
+
+Inductive cur_out := CurOk | CurFilterErr | CurPosErr.
+Definition u_new_cursor (ix : tix) (m : list nat) (o : cur_out) : option (tix * list nat) :=
+  let srcs := sel ix m in
+  let ix1 := inc_all ix srcs in
+  match o with
+  | CurOk => Some (ix1, srcs)
+  | CurFilterErr | CurPosErr => match rel_all ix1 srcs with Some ix2 => Some (ix2, []) | None => None end
+  end.
+Definition u_close (ix : tix) (srcs : list nat) : option tix := rel_all ix srcs.
+Definition u_new_cursor_v6 (ix : tix) (m : list nat) (o : cur_out) : option (tix * list nat) :=
+  let srcs := sel ix m in
+  let ix1 := inc_all ix srcs in
+  match o with
+  | CurOk => Some (ix1, srcs)
+  | CurFilterErr => match rel_all ix1 srcs with Some ix2 => Some (ix2, []) | None => None end
+  | CurPosErr =>
+      match rel_all ix1 srcs with
+      | Some ix2 => match rel_all ix2 srcs with Some ix3 => Some (ix3, []) | None => None end
+      | None => None
+      end
+  end.
+
+Inductive wr_out := WrOk | WrOpenErr | WrFirstErr | WrMiddleErr.
+Definition u_write_g (v7 : bool) (ix : tix) (tag : nat) (o : wr_out) : option tix :=
+  match acq_tags ix tag true with
+  | (ix1, AGot p) =>
+      match o with
+      | WrOpenErr => release ix1 p
+      | WrMiddleErr => if v7 then Some ix1 else release ix1 p
+      | WrFirstErr | WrOk => release ix1 p
+      end
+  | (_, _) => Some ix
+  end.
+Definition u_write := u_write_g false.
+Definition u_write_v7 := u_write_g true.
+
+(* the freshly created, unused partition of a tag line; the one-partition index with count r *)
+Definition fresh (tag : nat) : tdesc := {| t_tag := tag; t_readers := 0; t_excl := false; t_live := true |}.
+Definition ixu (r : Z) : tix := [{| t_tag := 0; t_readers := r; t_excl := false; t_live := true |}].
+
+Definition unlocked (ix : tix) : Prop := forall p td, get ix p = Some td -> t_excl td = false.
+Definition nonneg (ix : tix) : Prop := forall p td, get ix p = Some td -> (0 <= t_readers td)%Z.
+
